@@ -165,6 +165,7 @@ class C13(Prop):
         cfg["depth"] = rng.choice([1, 2, 2, 3])
         cfg["name_style"] = "pool"
         cfg["name_pool"] = NAME_POOL
+        cfg["unique_names"] = False
         cfg["ident_rate"] = rng.choice([0.0, 0.4, 0.8])
         cfg["userkey_rate"] = rng.choice([0.0, 0.4])
         cfg["unnamed"] = rng.choice([0.0, 0.15])
